@@ -36,8 +36,10 @@ Plain == [t |-> "plain", name |-> "", nres |-> 1]
 Plain2 == [t |-> "plain", name |-> "", nres |-> 2]
 CountK == [t |-> "count", name |-> "count", nres |-> 1]
 AKinds == {Plain, Plain2, CountK}
-CtxVals == {[a |-> 1], [a |-> 2, n |-> [b |-> 1]], [k |-> 1, n |-> [b |-> 3], output |-> [filename |-> "f"]]}
-Muts == {Inc("a"), SetK("z", 9), SetN("n", "b", 7), MakeFn("g"), SetN("variable", "name", 5)}
+\* contexts with nested dicts and with a list; mutations at the top level, inside a nested dict, creating a
+\* nested dict, inside / creating a list
+CtxVals == {[a |-> 1], [a |-> 2, n |-> [b |-> 1]], [k |-> 1, n |-> [b |-> 3], output |-> [filename |-> "f"], l |-> <<1, 2>>]}
+Muts == {Inc("a"), SetK("z", 9), SetN("n", "b", 7), MakeFn("g"), SetN("variable", "name", 5), LApp(5)}
 Del(c, ks) == [x \in (DOMAIN c) \ ks |-> c[x]]
 Own(k) == IF k.t = "count" THEN {k.name} ELSE {}
 
@@ -82,6 +84,7 @@ MutCtx(MM, cid, mu) ==
   CASE mu.t = "inc" -> HSetKey(MM, cid, mu.key, (IF mu.key \in DOMAIN MM.h[cid].m THEN MM.h[cid].m[mu.key] ELSE 0) + 1)
     [] mu.t = "set" -> HSetKey(MM, cid, mu.key, mu.x)
     [] mu.t = "setn" -> HSetNested(MM, cid, mu)
+    [] mu.t = "lapp" -> HListApp(MM, cid, mu.x)
 MutateA(j, mu) == /\ j \in 1..Len(res)
                   /\ M' = MutCtx(M, res[j].c, mu)
                   /\ res' = [res EXCEPT ![j].x = SnapCtx(M'.h, res[j].c)]
